@@ -395,6 +395,56 @@ theorem dropped_event_reaches_exactly_the_attached {c : Cfg} {w : World} (r : Re
       rw [notifyCore_oob _ _ _ (Nat.lt_of_not_le hid)]
       rfl
 
+/-- `notifier_dead_event`: the emission performed by the cleanup of a dead node that owned a notifier (`deadSignal`, applied by
+`cleanNode` when the service survives): in any world satisfying the invariant — all the intermediate worlds of a cleanup do —,
+when the signal can be sent (a node slot and a notifier slot are free, a listener is registered, the id is configured and inside
+the bounds), exactly the listeners that exist at that moment get the id. -/
+theorem dead_event_reaches_exactly_the_attached {w : World} (inv : Inv w) {id : Nat} (hd : w.cfg.dead = some id)
+    (hid : id ≤ w.cfg.idMax) (hn : nodeCount w < w.cfg.maxNodes) (hl : w.lisReg.len ≠ 0) (hf : w.notReg.free ≠ []) (l : Nat) :
+    (deadSignal w).liss l =
+      match w.liss l with
+      | some L => if L.st = .alive then some { L with pending := insertId id L.pending } else some L
+      | none => none := by
+  unfold deadSignal
+  rw [if_neg (by omega), if_neg hl, hd]
+  simp only []
+  cases hfr : w.notReg.free with
+  | nil => exact absurd hfr hf
+  | cons i rest =>
+    simp only []
+    rw [if_neg (by omega)]
+    show (deliver _ w.lisReg.labels id).liss l = _
+    rw [deliver_liss]
+    cases hL : w.liss l with
+    | none => rfl
+    | some L =>
+      simp only []
+      by_cases ha : L.st = .alive
+      · have hown : lisOwn w l = some L.slot := by simp [lisOwn, hL, ha]
+        have : l ∈ w.lisReg.labels := Reg.mem_labels.mpr ⟨L.slot, inv.lis.owner l L.slot hown⟩
+        simp [this, ha]
+      · simp [ha]
+
+/-- without a configured dead event, or with one outside the bounds, the cleanup's emission changes no listener -/
+theorem dead_event_unconfigured_or_out_of_bounds {w : World} (h : w.cfg.dead = none ∨ ∃ id, w.cfg.dead = some id ∧ w.cfg.idMax < id) :
+    (deadSignal w).liss = w.liss := by
+  unfold deadSignal
+  split
+  · rfl
+  · split
+    · rfl
+    · split
+      · rfl
+      · rename_i id hid
+        split
+        · rfl
+        · split
+          · rfl
+          · rename_i hlt
+            rcases h with h | ⟨id', h, hid'⟩
+            · rw [h] at hid; cases hid
+            · rw [h] at hid; cases hid; exact absurd hid' hlt
+
 /-- a refused creation emits no lifecycle event (and changes nothing at all) -/
 theorem refused_creation_emits_nothing {w : World} {n k : Nat} {d : Option Nat} (h : (step w (.cnot n d k)).2 ≠ .ok) :
     (step w (.cnot n d k)).1 = w := by
